@@ -130,7 +130,7 @@ var contexts = []string{"top", "closure", "seqMap", "seqAccept", "parMap", "parA
 // contexts in which the fault is raised by the closure of a list stage of any kind
 // (Case.Stage) instead of a map closure
 var stageContexts = []string{"seqStage", "mergeOperandStage", "mergeReceiverStage", "mergeOperandStageFirst", "multiUseSourceStage", "multiUseConsumerStage",
-	"behindParallelStage", "lazyResultStage"}
+	"behindParallelStage", "lazyResultStage", "stageThenMap", "stageThenAccept", "stageThenParallelMap", "stageThenMapInMultiUse"}
 
 var stageKinds = []string{"map", "accept", "number", "iir", "iirInitial", "iirCombine", "combine", "combine3", "combineN", "compact", "cross", "fsm"}
 
@@ -198,6 +198,16 @@ func inStageContext(ctx, stage string, f *Expr) *Expr {
 		return MCall(stageList(stage, MCall(SCall("numbers", Int(40)), "map", lam1(SCall("slowTo", e, Int(14)))), 20, f), "reduce", keepLast)
 	case "lazyResultStage":
 		return stageList(stage, SCall("numbers", Int(5)), 2, f)
+	// the failing stage is the SOURCE of a map or accept stage: the fault passes through it
+	case "stageThenMap":
+		return MCall(MCall(stageList(stage, six, 2, f), "map", lam1(e)), "reduce", keepLast)
+	case "stageThenAccept":
+		return MCall(MCall(stageList(stage, six, 2, f), "accept", lam1(Bool(true))), "size")
+	case "stageThenParallelMap":
+		return MCall(MCall(stageList(stage, SCall("numbers", Int(40)), 20, f), "map", lam1(SCall("slowTo", e, Int(14)))), "reduce", keepLast)
+	case "stageThenMapInMultiUse":
+		return MCall(stageList(stage, six, 2, f), "multiUse", Map([]string{"a", "b"}, []*Expr{Lam([]string{"l"}, MCall(MCall(Var("l"), "map", lam1(e)), "reduce", keepLast)),
+			Lam([]string{"l"}, MCall(MCall(Var("l"), "accept", lam1(Bool(true))), "size"))}))
 	}
 	panic("stage context " + ctx)
 }
